@@ -301,14 +301,27 @@ def unit_getitem(sess, ctx):
 
 
 def unit_len(sess, ctx):
-    u = Unit("AudioRegion.__len__/len, _MillisView.__len__", [QR + "__len__", QR + "len", QC + "_MillisView.__len__"])
+    u = Unit("AudioRegion.__len__/len, _MillisView.__len__, view.len", [QR + "__len__", QR + "len", QC + "_MillisView.__len__",
+                                                                         QC + "_SecondsView.len", QC + "_MillisView.len"])
     eng = setup(sess, [QR + "__len__"])
 
     def run_(eng):
         v = RV("r")
         eng.assume(v.wf(eng))
         me = region_obj(eng, v)
-        which = eng.choose(3, None, "len / .len / millis len")
+        which = eng.choose(5, None, "len / .len / millis len / seconds .len / millis .len")
+        if which >= 3:
+            # the `len` of the two time views: the duration in seconds, resp. the rounded duration in milliseconds
+            eng.inline |= {QC + "_SecondsView.len", QC + "_MillisView.len", QC + "_MillisView.__len__"}
+            dur = eng.st.heap[me.oid]["duration"]
+            if which == 3:
+                res = eng.getattr(eng.st.heap[me.oid]["_seconds_view"], "len")
+                eng.prove("C16:seconds-view-len-is-the-duration", res is dur or (isinstance(res, Fl) and z3.eq(res.t, dur.t)), props=("C16",))
+            else:
+                res = eng.getattr(eng.st.heap[me.oid]["_millis_view"], "len")
+                eng.prove("C16:millis-view-len-is-rounded-duration-in-ms",
+                          I(res) == r_round_half_even(eng.spec_mul(dur, 1000)) if is_int(res) else False, props=("C16",))
+            return None
         if which == 0:
             res = eng.run_function(ctx.fi(QR + "__len__"), [], {}, me)
             eng.prove("C16:len-is-the-sample-count", I(res) == v.ns if is_int(res) else False, props=("C16",))
